@@ -39,6 +39,8 @@ func jobsFor(prop, tier string) []*Job {
 			add(&Job{Name: fmt.Sprintf("O3-gcd/n=%d,M=%d", n, gm), Pkg: "roundrobin", Harness: "VerifC01Gcd", Params: p("n", n, "M", gm), Unwind: gm + 4, TimeoutS: 120, IncKind: "z3", Solvers: []string{"z3", "cvc5"},
 				Bounds: fmt.Sprintf("real weightGcd/gcd on n=%d servers, weights symbolic in [0,%d] not all zero: result divides every weight and is a multiple of every common divisor in [2,%d]; loops unwound to termination (unwinding bound M+4 never reached)", n, gm, gm)})
 		}
+		add(&Job{Name: "O4-concurrent-selections/n=2", Pkg: "roundrobin", Harness: "VerifC01Concurrent", Params: p("n", 2), Unwind: 40,
+			Bounds: "two concurrent NextServer calls, the second running to completion at any one lock boundary of the first (two-thread sequentialisation); 2 servers, weights 0..3 not all zero, 0..3 warm-up selections (all symbolic): the pair chosen is the next two selections of the sequential sequence and the state afterwards is the same; native replay by barrier-released stress"})
 		for n := 1; n <= nmax; n++ {
 			parts := []int{-1}
 			if n >= 3 {
@@ -74,6 +76,8 @@ func jobsFor(prop, tier string) []*Job {
 		}
 		shapesBd := "real limiter, rates {1/s burst 2} or {1/s burst 2, 3/min burst 3} chosen per request by the rate extractor (one job per pattern, all 4), 2 requests of one source with symbolic amounts 1..4 and gaps up to 4 s (symbolic seconds and nanosecond remainder), both map iteration orders inside TokenBucketSet.Consume (insertion order elsewhere; Update is order-checked by O4): oversize requests are errors without delay, others forwarded or 429 with delay, 1 s window bound across shape changes"
 		if prop == "C03" {
+			add(&Job{Name: "O6-concurrent-requests", Pkg: "ratelimit", Harness: "VerifC03Concurrent", Grid: 1e9, Params: p("t0span", 3), TimeoutS: 120,
+				Bounds: "two concurrent requests (amount 1) of one source at one instant, the second running to completion at any one lock boundary of the first; rate 1/s, burst 1..2, 0..burst tokens already spent (symbolic): admitted = min(2, burst-spent); native replay by barrier-released stress"})
 			add(&Job{Name: "O4-update", Pkg: "ratelimit", Harness: "VerifC03Update", Params: p("tpt", 1), MapPermMax: 2, TimeoutS: 120, Inductive: true,
 				Bounds: "TokenBucketSet.Update from any set over periods {1s,1min} (each bucket present or not, arbitrary invariant-satisfying state, rate 1..1000 per period, burst <= 2^20) to any non-empty rate set over the same periods (each rate unchanged or changed, symbolic)"})
 			for sh := 0; sh < 4; sh++ {
